@@ -33,6 +33,12 @@ Proof. exact pending_query_abort_surfaces. Qed.
 Theorem C20_pending_query_skips_progress : forall ixa sk i v, i <> ixa -> In i sk -> h_pending ixa sk tt i v = (None, tt).
 Proof. exact pending_progress_is_skipped. Qed.
 
+(* ... so that, behind ANY number of progress reports, an abort of the query with a code other than 0xB8 is what the query reports *)
+Theorem C20_pending_query_abort_anywhere : forall ixa sk pre c rest tail, c <> 184 ->
+  (forall j u, In (j, u) pre -> j <> ixa /\ In j sk) ->
+  run_handler (h_pending ixa sk) (fun _ => RErr EIncomplete) tt (pre ++ (ixa, VRec (VInt c :: rest)) :: tail) = RErr (EAborted c).
+Proof. exact pending_abort_anywhere. Qed.
+
 (* a handler's verdict on an abort ends the loop: what came before cannot turn it into a success *)
 Theorem C20_abort_ends_the_loop : forall (A B : Type) (h : A -> N -> value -> option (cres B) * A) fin acc i v r res acc',
   h acc i v = (Some res, acc') -> run_handler h fin acc ((i, v) :: r) = res.
@@ -157,6 +163,7 @@ Print Assumptions C20_cancel_abort_anywhere.
 Print Assumptions C20_abort_surfaces.
 Print Assumptions C20_pending_query_abort_surfaces.
 Print Assumptions C20_pending_query_skips_progress.
+Print Assumptions C20_pending_query_abort_anywhere.
 Print Assumptions C20_abort_ends_the_loop.
 Print Assumptions C20_exceptions_are_known_codes.
 
